@@ -5,7 +5,8 @@
 (* (operation, table, old/new rowid, old/new row token).  The line is accepted iff the groups  *)
 (* are exactly what the specification's evaluator delivers for that session with all switches  *)
 (* on, or - only when AcceptAsWritten - what it delivers with the streamer as written in       *)
-(* db/cdc.go (the recorded finding; such lines are reported through `@@KNOWN`).                *)
+(* db/cdc.go (AsIsStmt/AsIsTxn/AsIsSp of CDCEvents: the recorded finding; such lines are       *)
+(* reported through `@@KNOWN`).                                                                *)
 EXTENDS CDCEvents, Integers
 
 CONSTANT AcceptAsWritten
